@@ -155,6 +155,14 @@ func c14Run(c *C) {
 		return
 	}
 	F := good[0].out
+	// the caller keeps the slice returned by ExecuteBytes while other executions run; it is inspected again at the end
+	var keptBytes []byte
+	{
+		set, _ := newSet(p.files)
+		if tpl, err := set.FromFile("/main.tpl"); err == nil {
+			keptBytes, _ = tpl.ExecuteBytes((&c14Ticker{}).ctx())
+		}
+	}
 	// number of tick calls of a fault-free run
 	tk := &c14Ticker{}
 	set, _ := newSet(p.files)
@@ -233,6 +241,46 @@ func c14Run(c *C) {
 			return
 		}
 	}
+	// a context that must be refused (invalid key name / invalid key in the set's globals): all four entry points refuse it alike
+	for variant := 0; variant < 2; variant++ {
+		var errs [4]string
+		for which := 0; which < 4; which++ {
+			set, _ := newSet(p.files)
+			tk := &c14Ticker{}
+			ctx := tk.ctx()
+			if variant == 0 {
+				ctx["not-an-identifier"] = 1
+			} else {
+				set.Globals["bad key"] = 1
+			}
+			tpl, err := set.FromFile("/main.tpl")
+			if err != nil {
+				break
+			}
+			w := &recWriter{}
+			var e error
+			switch which {
+			case 0:
+				_, e = tpl.Execute(ctx)
+			case 1:
+				_, e = tpl.ExecuteBytes(ctx)
+			case 2:
+				e = tpl.ExecuteWriter(ctx, w)
+			default:
+				e = tpl.ExecuteWriterUnbuffered(ctx, w)
+			}
+			c.Eval(1)
+			errs[which] = errStr(e)
+			if e == nil || len(w.writes) != 0 {
+				c.Fail("invalid-context-accepted", D{"files": p.files, "entry": c14Entry[which], "variant": []string{"context key \"not-an-identifier\"", "globals key \"bad key\""}[variant], "write_calls": len(w.writes), "error": errStr(e)})
+				return
+			}
+		}
+		if errs[1] != errs[0] || errs[2] != errs[0] || errs[3] != errs[0] {
+			c.Fail("variants-fail-differently", D{"files": p.files, "errors": errs})
+			return
+		}
+	}
 	// a failing writer under the unbuffered variant: the property does not require the error to be reported,
 	// but the call must return (no panic: recovered by the worker and reported) and whatever was accepted is a prefix
 	for j := 1; j <= good[3].writes && j <= 40; j++ {
@@ -247,6 +295,10 @@ func c14Run(c *C) {
 	// a writer that fails only after the k-th successful execution error (mixed)
 	var sink bytes.Buffer
 	_ = sink
+	if string(keptBytes) != F {
+		c.Fail("returned-bytes-changed-later", D{"files": p.files, "bytes_at_end": q(truncStr(string(keptBytes), 400)), "bytes_when_returned": q(truncStr(F, 400))})
+		return
+	}
 	c.CoverN("fault_positions_swept", M)
 	c.Cover(fmt.Sprintf("writes_by_ExecuteWriter_%d", nWrites))
 	if good[3].writes > 1 {
